@@ -79,7 +79,7 @@ func sameFieldComparisons(f *ssa.Function) (covered map[string]bool, bad []strin
 
 func init() {
 	register(&Rule{
-		ID: "reload.equality-audit", Props: []string{"C14", "C13"}, Floor: 6,
+		ID: "reload.equality-audit", Props: []string{"C14", "C13", "C05"}, Floor: 6,
 		Doc: "the rule equality functions used to decide controller reuse (flow.Rule.isEqualsTo, circuitbreaker.Rule.isEqualsTo + isEqualsToBase, hotspot.Rule.Equals) compare only the same field on both sides (==, util.Float64Equals, reflect.DeepEqual), cover every field of the rule struct except the frozen exemptions, and return false only on a branch where some same-field comparison failed (or the other rule is nil): field-identical rules compare equal, and a modified behaviour-relevant field is never missed",
 		Run: func(c *Ctx) {
 			for _, es := range eqSpecs {
@@ -594,4 +594,250 @@ func phiIsConjunction(ph *ssa.Phi, cmps map[ssa.Value]string, helpers map[ssa.Va
 		}
 	}
 	return true
+}
+
+// ------------------------------------------------------------------------------------------------ path-wise coverage
+// fieldRelevance: a field may be left uncompared on a path that returns "equal" only when the path has established
+// that the rule's discriminator equals a built-in constant under which no generator reads the field.
+// (Frozen after reading the generators: which constructor reads which rule field.)
+var fieldRelevance = map[string]map[string]struct {
+	disc string
+	vals []string
+}{
+	"core/flow.(*Rule).isEqualsTo": {
+		"MaxQueueingTimeMs":     {"ControlBehavior", []string{"Throttling"}},
+		"WarmUpPeriodSec":       {"TokenCalculateStrategy", []string{"WarmUp"}},
+		"WarmUpColdFactor":      {"TokenCalculateStrategy", []string{"WarmUp"}},
+		"LowMemUsageThreshold":  {"TokenCalculateStrategy", []string{"MemoryAdaptive"}},
+		"HighMemUsageThreshold": {"TokenCalculateStrategy", []string{"MemoryAdaptive"}},
+		"MemLowWaterMarkBytes":  {"TokenCalculateStrategy", []string{"MemoryAdaptive"}},
+		"MemHighWaterMarkBytes": {"TokenCalculateStrategy", []string{"MemoryAdaptive"}},
+	},
+	"core/circuitbreaker.(*Rule).isEqualsTo": {
+		"MaxAllowedRtMs": {"Strategy", []string{"SlowRequestRatio"}},
+	},
+	"core/hotspot.(*Rule).Equals": {
+		"BurstCount":        {"ControlBehavior", []string{"Reject"}},
+		"MaxQueueingTimeMs": {"ControlBehavior", []string{"Throttling"}},
+	},
+}
+
+type eqPath struct {
+	ret     *ssa.Return
+	covered map[string]bool
+	disc    map[string]string // discriminator field -> constant name it was found equal to
+}
+
+// equalPaths enumerates the loop-free paths of an equality function on which it answers true, with the fields that
+// were compared equal along the path (directly or by a helper) and the discriminator values established.
+func equalPaths(f *ssa.Function, cmps map[ssa.Value]string, helperCover map[ssa.Value]map[string]bool) (paths []eqPath, complete bool) {
+	type fact struct {
+		v ssa.Value
+		t bool
+	}
+	complete = true
+	budget := 20000
+	var walk func(b *ssa.BasicBlock, prev *ssa.BasicBlock, facts []fact, onPath map[*ssa.BasicBlock]bool)
+	// resolve a boolean value on the current path: (constant?, value, known)
+	var resolveB func(v ssa.Value, b *ssa.BasicBlock, preds map[*ssa.BasicBlock]*ssa.BasicBlock, d int) (isConst bool, cv bool, rv ssa.Value)
+	resolveB = func(v ssa.Value, b *ssa.BasicBlock, preds map[*ssa.BasicBlock]*ssa.BasicBlock, d int) (bool, bool, ssa.Value) {
+		if d > 6 {
+			return false, false, v
+		}
+		switch x := v.(type) {
+		case *ssa.Const:
+			if x.Value != nil && x.Value.Kind() == constant.Bool {
+				return true, constant.BoolVal(x.Value), nil
+			}
+		case *ssa.Phi:
+			p := preds[x.Block()]
+			for i, pb := range x.Block().Preds {
+				if pb == p {
+					return resolveB(x.Edges[i], b, preds, d+1)
+				}
+			}
+		case *ssa.UnOp:
+			if x.Op == token.NOT {
+				ic, c, r := resolveB(x.X, b, preds, d+1)
+				if ic {
+					return true, !c, nil
+				}
+				_ = r
+				return false, false, v
+			}
+		}
+		return false, false, v
+	}
+	preds := map[*ssa.BasicBlock]*ssa.BasicBlock{}
+	finish := func(r *ssa.Return, facts []fact) {
+		p := eqPath{ret: r, covered: map[string]bool{}, disc: map[string]string{}}
+		for _, ft := range facts {
+			v, t := stripNot(ft.v, ft.t)
+			if fld, ok := cmps[v]; ok {
+				if b, isB := v.(*ssa.BinOp); isB {
+					if (b.Op == token.EQL && t) || (b.Op == token.NEQ && !t) {
+						p.covered[fld] = true
+					}
+				} else if t {
+					p.covered[fld] = true
+				}
+				continue
+			}
+			if hc, ok := helperCover[v]; ok && t {
+				for k := range hc {
+					p.covered[k] = true
+				}
+				continue
+			}
+			if b, isB := v.(*ssa.BinOp); isB && ((b.Op == token.EQL && t) || (b.Op == token.NEQ && !t)) {
+				x, y := b.X, b.Y
+				if _, isC := x.(*ssa.Const); isC {
+					x, y = y, x
+				}
+				if k, ok := constInt(y); ok {
+					if ld, ok := stripConv(x).(*ssa.UnOp); ok && ld.Op == token.MUL {
+						if fa, ok := ld.X.(*ssa.FieldAddr); ok {
+							if _, isP := fa.X.(*ssa.Parameter); isP {
+								p.disc[fieldName(fa.X.Type(), fa.Field)] = constName(y.Type(), k)
+							}
+						}
+					}
+				}
+			}
+		}
+		paths = append(paths, p)
+	}
+	walk = func(b *ssa.BasicBlock, prev *ssa.BasicBlock, facts []fact, onPath map[*ssa.BasicBlock]bool) {
+		budget--
+		if budget < 0 || onPath[b] {
+			complete = complete && budget >= 0 && !onPath[b]
+			return
+		}
+		onPath[b] = true
+		preds[b] = prev
+		defer func() { delete(onPath, b); delete(preds, b) }()
+		last := b.Instrs[len(b.Instrs)-1]
+		switch x := last.(type) {
+		case *ssa.Return:
+			ic, c, rv := resolveB(x.Results[0], b, preds, 0)
+			if ic {
+				if c {
+					finish(x, facts)
+				}
+				return
+			}
+			// the result is a comparison / helper value: the function answers true iff that value is true
+			finish(x, append(append([]fact{}, facts...), fact{rv, true}))
+		case *ssa.If:
+			ic, c, rv := resolveB(x.Cond, b, preds, 0)
+			if ic {
+				if c {
+					walk(b.Succs[0], b, facts, onPath)
+				} else {
+					walk(b.Succs[1], b, facts, onPath)
+				}
+				return
+			}
+			walk(b.Succs[0], b, append(append([]fact{}, facts...), fact{rv, true}), onPath)
+			walk(b.Succs[1], b, append(append([]fact{}, facts...), fact{rv, false}), onPath)
+		case *ssa.Jump:
+			walk(b.Succs[0], b, facts, onPath)
+		default:
+			complete = false
+		}
+	}
+	if len(f.Blocks) > 0 {
+		walk(f.Blocks[0], nil, nil, map[*ssa.BasicBlock]bool{})
+	}
+	return
+}
+
+func init() {
+	register(&Rule{
+		ID: "reload.equality-covers-each-path", Props: []string{"C13", "C14", "C10"}, Floor: 3,
+		Doc: "on every path on which a rule equality function answers 'equal', every field of the rule has been compared equal (directly or by the helper), except the descriptive id and fields that no generator reads for the discriminator value established on that path (frozen relevance table: e.g. MaxQueueingTimeMs matters iff ControlBehavior == Throttling). A function that covers all fields somewhere but returns early on one branch treats a rule whose skipped field changed as unchanged: the old controller - e.g. with the old queueing limit - stays in force",
+		Run: func(c *Ctx) {
+			for _, es := range eqSpecs {
+				f := c.P.Func(es.fn)
+				if f == nil {
+					c.AnchorLost(es.fn)
+					continue
+				}
+				_, _, cmps := sameFieldComparisons(f)
+				helperCover := map[ssa.Value]map[string]bool{}
+				for _, h := range es.helpers {
+					hf := c.P.Func(h)
+					if hf == nil {
+						c.AnchorLost(h)
+						continue
+					}
+					// the helper's own true-paths: fields covered on all of them
+					_, _, hcmps := sameFieldComparisons(hf)
+					hp, hcomplete := equalPaths(hf, hcmps, nil)
+					var inter map[string]bool
+					for _, p := range hp {
+						if inter == nil {
+							inter = map[string]bool{}
+							for k := range p.covered {
+								inter[k] = true
+							}
+							continue
+						}
+						for k := range inter {
+							if !p.covered[k] {
+								delete(inter, k)
+							}
+						}
+					}
+					if !hcomplete {
+						inter = map[string]bool{}
+					}
+					for _, ci := range callsIn(f) {
+						if isStaticCallTo(ci, hf) {
+							if v, ok := ci.(ssa.Value); ok {
+								helperCover[v] = inter
+							}
+						}
+					}
+				}
+				paths, complete := equalPaths(f, cmps, helperCover)
+				if !complete || len(paths) == 0 {
+					c.Undecided(fnKey(f)+" / true-paths", f.Pos(), "cannot enumerate the paths of the equality function (loops or unknown terminators)")
+					continue
+				}
+				st := namedOf(f.Params[0].Type()).Underlying().(*types.Struct)
+				rel := fieldRelevance[es.fn]
+				bad := ""
+				for _, p := range paths {
+					for i := 0; i < st.NumFields(); i++ {
+						n := st.Field(i).Name()
+						if p.covered[n] {
+							continue
+						}
+						if _, ok := es.exempt[n]; ok {
+							continue
+						}
+						if r, ok := rel[n]; ok {
+							if dv, known := p.disc[r.disc]; known {
+								irrelevant := true
+								for _, v := range r.vals {
+									if v == dv {
+										irrelevant = false
+									}
+								}
+								if _, err := fmt.Sscanf(dv, "%d", new(int)); err == nil {
+									irrelevant = false // not a named built-in constant
+								}
+								if irrelevant {
+									continue
+								}
+							}
+						}
+						bad = fmt.Sprintf("%s is not compared on the path returning at %s (discriminators known there: %v)", n, c.P.Pos(p.ret.Pos()), p.disc)
+					}
+				}
+				c.Check(bad == "", fnKey(f)+" / every-true-path-covers-all-fields", f.Pos(), "%d path(s) answer 'equal'; %s", len(paths), bad)
+			}
+		},
+	})
 }
